@@ -23,6 +23,11 @@ def atoms():
         conts += [c(1, 2), c(2, 1), c(TaskRef("a"), TaskRef("b")), c(TaskRef("b"), TaskRef("a")), c(TaskRef(1)), c(TaskRef("1"))]
     conts += [Dict({"k1": 1, "k2": 2}), Dict({"k1": 2, "k2": 1}), Dict({"k2": 2, "k1": 1}), Dict({"k1": TaskRef("a"), "k2": TaskRef("b")}), Dict({"k1": TaskRef("b"), "k2": TaskRef("a")}),
               List(List(1, 2), 3), List(List(2, 1), 3), List(1, List(2, 3)), List(List(1), 2, 3)]
+    # a container whose only element is a plain container of the same kind (the constructor unwraps one level);
+    # dicts that carry the same value under several keys and differ in one of those keys only
+    conts += [List([[1, 2]]), List([1, 2]), Tuple(((2, 2),)), Tuple((2, 2)), List([[TaskRef("a")]]),
+              Dict({"a": 1, "b": 1}), Dict({"c": 1, "b": 1}), Dict({"b": 1}), Dict({"a": TaskRef("a"), "b": TaskRef("a")}), Dict({"z": TaskRef("a"), "b": TaskRef("a")}),
+              Dict("a", 1, "a", 2), Dict("a", 2, "a", 1), Dict("a", 2), Dict([("a", 1), ("a", 2)])]   # a key given twice keeps its last value
     return refs, lits, conts
 
 
@@ -249,11 +254,15 @@ def legacy_sweep(tier, seed=0):
         try:
             want, used = legacy_ref(term, env, keys - {"w"})
             got = get_sync(dsk, "w")
+            import dask.core as _core
+            got_core = _core.get(dict(dsk), "w")
             conv = convert_legacy_graph(dsk)
             deps = set(conv["w"].dependencies) if "w" in conv else {term}
             msg = None
             if got != want:
                 msg = f"converted graph computes {got!r}, legacy semantics give {want!r}"
+            elif got_core != want:
+                msg = f"dask.core.get computes {got_core!r}, legacy semantics give {want!r}"
             elif deps != used:
                 msg = f"node reports dependencies {sorted(map(repr, deps))}, the term references {sorted(map(repr, used))}"
             else:
@@ -267,8 +276,32 @@ def legacy_sweep(tier, seed=0):
             msg = f"{type(e).__name__}: {e}"
         if msg:
             fails.append(rtc.Failure("convert_legacy_task", {"term": repr(term), "dict_with_reference": _has_dict_ref(term, keys - {"w"})}, "ensures", "C08-legacy-meaning-preserved", msg))
+    # nested calls that raise: the exception of the legacy semantics (innermost call first) must come out, whatever its
+    # type -- StopIteration included -- and never a value
+    def _raiser(kind):
+        def r(*a):
+            raise kind("boom")
+        r.__name__ = "raise_" + kind.__name__
+        return r
+
+    for kind in (StopIteration, KeyError, ValueError, StopAsyncIteration):
+        rz = _raiser(kind)
+        for term in [(_f, (rz,)), (_f, 1, (rz,), 3), (_g, [(rz,)]), [1, (rz,), 2], (_f, (_g, (rz, "x"))), (_f, "x", (rz, ("t", 0)))]:
+            cases += 1
+            dsk = dict(base, w=term)
+            outcomes = []
+            for how, run in (("get_sync", lambda: get_sync(dsk, "w")), ("dask.core.get", lambda: __import__("dask.core").core.get(dict(dsk), "w"))):
+                try:
+                    outcomes.append((how, "value", run()))
+                except BaseException as e:  # noqa
+                    outcomes.append((how, "raised", type(e)))
+            bad = [(how, k, v) for how, k, v in outcomes if not (k == "raised" and v is kind)]
+            if bad:
+                how, k, v = bad[0]
+                fails.append(rtc.Failure("convert_legacy_task", {"term": repr(term), "dict_with_reference": False, "raises": kind.__name__}, "ensures", "C08-legacy-meaning-preserved",
+                                         f"{how}: a nested call raises {kind.__name__}, but the graph {'returns ' + repr(v) if k == 'value' else 'raises ' + v.__name__}"))
     return {"function": "dask/_task_spec.py:convert_legacy_graph + execution (real code) vs reference legacy interpreter", "bounded": True,
-            "bound": {"term depth": 2, "alphabet": "keys x, ('t',0), y, 7, 2.5 (numeric keys); functions f, g; literals 1, 'lit', None; lists, non-call tuples, dict arguments; each graph run again after the returned value was edited in place"},
+            "bound": {"term depth": 2, "alphabet": "keys x, ('t',0), y, 7, 2.5 (numeric keys); functions f, g; literals 1, 'lit', None; lists, non-call tuples, dict arguments; each graph run again after the returned value was edited in place; run through get_sync and dask.core.get; nested calls raising StopIteration / KeyError / ValueError / StopAsyncIteration"},
             "cases": cases, "distinct_nontrivial": cases, "failures_found": len(fails), "wall_s": round(time.time() - t0, 2),
             "samples": [{"native_case": {"term": "(f, ['x', ('t', 0)])"}}], "failures": fails[:400]}
 
@@ -295,3 +328,49 @@ def pickle_sweep(tier, seed=0):
     return {"function": "dask/_task_spec.py: pickling of task nodes (real code)", "bounded": True, "bound": {"nodes": len(nodes)},
             "cases": cases, "distinct_nontrivial": cases, "failures_found": len(fails), "wall_s": round(time.time() - t0, 2),
             "samples": [{"native_case": {"node": "Task('k', f, x=TaskRef('a'), y=TaskRef('b'))"}}], "failures": fails[:5]}
+
+
+def token_history_sweep(tier, seed=0):
+    """C11 over a history: tasks over short-lived callables (closures, lambdas, partials) are built, tokenized and
+    released; a later task over a DIFFERENT callable must not come out equal / with the same token (an identity that
+    leans on the address of a dead object would)."""
+    import functools
+    import gc
+
+    from dask._task_spec import List, Task, TaskRef
+    from dask.tokenize import tokenize
+
+    t0 = time.time()
+    cases, fails = 0, []
+
+    def mk(i):
+        if i % 3 == 0:
+            return lambda x, n=i: x + n
+        if i % 3 == 1:
+            def clo(x):
+                return x * i
+            return clo
+        return functools.partial(operator.add, i)
+
+    seen = {}   # token -> (value on 5, description)
+    rounds = 400 if tier == "quick" else 4000
+    for i in range(rounds):
+        cases += 1
+        f = mk(i)
+        t = Task("k", f, TaskRef("x"))
+        node = t if i % 2 else List(t, 1)
+        tok = tokenize(node)
+        val = repr(node({"x": 5}))
+        hash(t)
+        old = seen.get(tok)
+        if old is not None and old[0] != val:
+            fails.append(rtc.Failure("Task._get_token", {"round": i, "callable": type(f).__name__}, "ensures", "C11-equal-nodes-compute-equal-values",
+                                     f"a task built in round {i} has the token of one built (and released) in round {old[1]}, but computes {val} instead of {old[0]}"))
+            break
+        seen[tok] = (val, i)
+        del f, t, node
+        if i % 7 == 0:
+            gc.collect()
+    return {"function": "dask/_task_spec.py: tokens of tasks over short-lived callables (real code)", "bounded": True, "bound": {"rounds": rounds, "callables": "lambda with default / closure / functools.partial, each released before the next is built"},
+            "cases": cases, "distinct_nontrivial": cases, "failures_found": len(fails), "wall_s": round(time.time() - t0, 2),
+            "samples": [{"native_case": {"round": 1, "callable": "function"}}], "failures": fails[:3]}
